@@ -116,6 +116,13 @@ theorem range_mem {tree : List Hdr} {a b : Nat} {l : List Nat}
 
 /-! ### handleFinalisedBlock -/
 
+theorem hrsW_sum_zero : ∀ {ws : List W}, (∀ w ∈ ws, ∃ x y, w = W.hsh x y) → (ws.map hrsW).sum = 0
+  | [], _ => rfl
+  | w :: ws, h => by
+    obtain ⟨x, y, rfl⟩ := h w (List.mem_cons_self ..)
+    have := hrsW_sum_zero (ws := ws) (fun v hv => h v (List.mem_cons_of_mem _ hv))
+    simp [hrsW, this]
+
 theorem finLoop_spec : ∀ (chain : List Nat) (n : Node) (acc : List W),
     NInv n → (∀ w ∈ acc, ∃ x y, w = .hsh x y) →
     NInv (finLoop n acc chain).1 ∧ Reach n (finLoop n acc chain).1 0 ∧
@@ -124,7 +131,7 @@ theorem finLoop_spec : ∀ (chain : List Nat) (n : Node) (acc : List W),
       (∀ w ∈ b, ∃ x y, w = .hsh x y) ∧ ∀ c ∈ chain, HdrOK (finLoop n acc chain).1.db c
   | [], n, acc, h, hacc => by
     simp only [finLoop]
-    exact ⟨h, Reach.same rfl rfl, rfl, fun b hb => by cases hb; exact ⟨hacc, by simp⟩⟩
+    exact ⟨h, Reach.same rfl rfl, by trivial, fun b hb => by cases hb; exact ⟨hacc, by simp⟩⟩
   | c :: rest, n, acc, h, hacc => by
     rw [finLoop]
     by_cases hg : c = genesisId
@@ -175,7 +182,7 @@ theorem finLoop_spec : ∀ (chain : List Nat) (n : Node) (acc : List W),
         obtain ⟨i1, i2, i3, i4⟩ := finLoop_spec rest n5 (acc ++ [W.hsh b.number c]) h5 hacc'
         have hlast : n5.last = n.last := by
           by_cases h1 : b.number = 1 <;> simp [n5, n4, n2, h1, Node.put, Node.emit]
-        refine ⟨i1, by simpa using r5.trans i2, by rw [i3, hlast], fun bb hb => ⟨(i4 bb hb).1, fun x hx => ?_⟩⟩
+        refine ⟨i1, r5.trans i2, by rw [i3, hlast], fun bb hb => ⟨(i4 bb hb).1, fun x hx => ?_⟩⟩
         rcases List.mem_cons.mp hx with rfl | hx
         · exact i2.keeps.hdrok _ hok
         · exact (i4 bb hb).2 x hx
@@ -187,7 +194,7 @@ theorem handleFinalised_spec (n : Node) (h : Nat) (hi : NInv n) :
   unfold handleFinalised
   by_cases hl : h = n.last
   · simp only [hl, if_true]
-    exact ⟨hi, Reach.same rfl rfl, rfl, fun _ => hi.last⟩
+    exact ⟨hi, Reach.same rfl rfl, by trivial, fun _ => hi.last⟩
   · simp only [hl, if_false]
     split
     · exact ⟨hi, Reach.same rfl rfl, rfl, fun hf => by cases hf⟩
@@ -203,16 +210,10 @@ theorem handleFinalised_spec (n : Node) (h : Nat) (hi : NInv n) :
         have sb : Step n' (n'.emit (.batch batch)) 0 := by
           have := Step.emit (n := n') (e := .batch batch)
             (fun _ => safeWs_of_plain _ (fun w hw => Or.inl (hb w hw)))
-          have hz : hrsE (.batch batch) = 0 := by
-            simp only [hrsE]
-            apply List.sum_eq_zero
-            intro x hx
-            obtain ⟨w, hw, rfl⟩ := List.mem_map.mp hx
-            obtain ⟨a, b, rfl⟩ := hb w hw
-            rfl
+          have hz : hrsE (.batch batch) = 0 := hrsW_sum_zero hb
           rwa [hz] at this
         have := sb i1
-        exact ⟨this.1, by simpa using i2.trans this.2, i3, fun _ => this.2.keeps.hdrok _ (hok h hmem)⟩
+        exact ⟨this.1, i2.trans this.2, i3, fun _ => this.2.keeps.hdrok _ (hok h hmem)⟩
 
 /-! ### SetFinalisedHash -/
 
@@ -225,7 +226,10 @@ theorem prune_step (n : Node) (h : Nat) : Step n (prune n h) 0 := by
     · exact Step.same rfl rfl (fun x hx => (List.mem_filter.mp hx).1) rfl
 
 theorem prune_db (n : Node) (h : Nat) : (prune n h).db = n.db := by
-  unfold prune; split <;> [rfl; (split <;> rfl)]
+  unfold prune
+  split
+  · rfl
+  · split <;> rfl
 
 theorem setFinalisedHash_step (n : Node) (h r s : Nat) : Step n (setFinalisedHash n h r s).1 1 := by
   intro hi
@@ -253,7 +257,8 @@ theorem setFinalisedHash_step (n : Node) (h r s : Nat) : Step n (setFinalisedHas
           have shrs : Step n2 (n2.put (.hrs r s)) 1 := by
             refine Step.put (w := .hrs r s) (fun _ => ⟨⟨h, ?_⟩, ?_⟩)
             · simp [n2, Node.put, Node.emit, DB.apply, DB.write]
-            · simp only [setOf, hhrs]; omega
+            · show setOf (n1.put (.fin r s h)).db ≤ s
+              simp only [setOf, hhrs]; omega
           have j2 := shrs j.1
           have sp := prune_step (n2.put (.hrs r s)) h j2.1
           have hok3 : HdrOK (prune (n2.put (.hrs r s)) h).db h := by
@@ -324,7 +329,7 @@ theorem applyForced_step (n : Node) (b : Hdr) : Step n (applyForced {} n b).1 0 
     · exact Step.refl _
     · split
       · exact Step.refl _
-      · rename_i fc _ _ cur hcur
+      · rename_i fc _ _ _ _ cur hcur
         have s1 : Step n (n.put (.change cur fc.bestFin)) 0 :=
           Step.put (w := .change cur fc.bestFin) (fun _ => trivial)
         have s2 := startNext_step (n.put (.change cur fc.bestFin)) fc.tag fc.eff
@@ -466,20 +471,18 @@ theorem step_step (n : Node) (op : Op) : Step n (step {} n op) 1 := by
   cases op with
   | imp id parent k v chg =>
     simp only [step?]
-    split
-    · rename_i n' res heq
-      split at heq
-      · cases heq
-      · rename_i b pr dirty hdef
-        cases heq
-        let n1 : Node := if n.defs.any (fun x => x.id = id) then n else { n with defs := n.defs ++ [b] }
-        have s0 : Step n n1 0 := by
-          by_cases hc : n.defs.any (fun x => x.id = id) = true
-          · simp only [n1, hc, if_true]; exact Step.refl _
-          · simp only [n1, hc]; exact Step.same rfl rfl (fun _ h => h) rfl
-        have := s0.trans (doImport_step n1 b pr dirty chg (define_root hdef))
-        exact this.mono (by omega)
-    · exact (Step.refl n).mono (by omega)
+    cases hdef : define n id parent k v with
+    | none => exact (Step.refl n).mono (by omega)
+    | some t =>
+      obtain ⟨b, pr, dirty⟩ := t
+      simp only
+      let n1 : Node := if n.defs.any (fun x => x.id = id) then n else { n with defs := n.defs ++ [b] }
+      have s0 : Step n n1 0 := by
+        by_cases hc : n.defs.any (fun x => x.id = id) = true
+        · simp only [n1, hc, if_true]; exact Step.refl _
+        · simp only [n1, hc]; exact Step.same rfl rfl (fun _ h => h) rfl
+      have := s0.trans (doImport_step n1 b pr dirty chg (define_root hdef))
+      exact this.mono (by omega)
   | fin id r s =>
     simp only [step?]
     exact doFin_step n id r s
